@@ -371,6 +371,8 @@ def scenarios(tier):
                     for explicit in (False, True):
                         if explicit and len(terms) > 1:
                             continue        # the explicit right-hand side is summed by the harness itself
+                        if nd == 3 and dims != [2, 2, 2] and len(terms) > 2:
+                            continue        # three-term steps on (3,2,2): single columns undecided within 60 s
                         for star in stars:
                             T.append({'name': 'step/%s/%s/%s/%s%s%s' % (g, 'x'.join(map(str, dims)), '+'.join(terms),
                                                                          'per' + ''.join(map(str, per)) if per else 'closed',
@@ -396,6 +398,9 @@ def scenarios(tier):
                     # 3-D explicit / multi-term steps: coefficient fields symbolic on the faces of one corner cell at a time, and when the
                     # upwind term (one case split per face) is involved, on the two faces of that cell along one axis at a time
                     sts = [(None, None)]
+                    if nd == 2 and len(terms) > 1 and tier == 'thorough' and dims not in ([2, 2], [1, 1]):
+                        # multi-term steps on the larger 2-D grids: corner-cell stars (full fields were undecided for single columns)
+                        sts = [(st, None) for st in ([1, 1], list(dims))]
                     if nd == 3 and (explicit or len(terms) > 1):
                         sts = [(st, None) for st in stars3]
                         if 'upwind' in terms:
